@@ -152,6 +152,8 @@ def make_args(case):
         d = rs.standard_normal((nd, dim))
         d /= np.linalg.norm(d, axis=1)[:, None]
         tol = float(rs.uniform(0.05, math.pi / 2))
+        if case["seed"] % 5 == 0:
+            tol = [2.0, math.pi, 5.0, 2.0 * math.pi, math.inf][(case["seed"] // 5) % 5]  # beyond a right angle: every pair is inside
         bw = float(rs.uniform(0.3, 3.0)) if case["seed"] % 3 else -1.0
         return (L(f), L(edges), L(pos), L(d), tol, bw, False, case["est"]), nb * npts * npts * nd
     if k in ("structured", "ma_structured"):
@@ -350,7 +352,21 @@ def _check_reference(case, args, ra, rec, tags):
             err = float(np.max(np.abs(ra[0][fin] - vals[fin]) / scale[fin])) if fin.any() else 0.0
             rec.discrepancy("reference_" + k, err, 1e-10)
             require(err <= 1e-10, f"{k}: values differ from the defining sums by {err:.3g} (relative)", dict(tags, kind="reference"))
-        # unstructured_h and directional: defining enumeration is C08's oracle (oracles/variogram.py)
+        if k == "directional":
+            # the defining enumeration (C08's oracle) for the pair counts: which pairs belong to which direction and bin
+            from oracles import variogram as ov
+
+            f_, e_, p_, d_, tol_, bw_, _sep, est_ = args[:8]
+            f_l = np.asarray(f_, dtype=float).tolist()
+            o_v, o_c, info_ = ov.directional(f_l, [float(x) for x in np.asarray(e_)], np.asarray(p_, dtype=float).tolist(),
+                                             ov.normalise(np.asarray(d_, dtype=float).tolist()), float(tol_), None if bw_ < 0 else float(bw_),
+                                             {"m": "matheron", "c": "cressie"}.get(est_, est_))
+            if not (info_["near_edge"] or info_["near_angle"] or info_["near_band"]):
+                require(np.array_equal(np.asarray(ra[1]).reshape(np.shape(o_c)), np.asarray(o_c)),
+                        f"directional: pair counts {np.asarray(ra[1]).tolist()} differ from the defining enumeration {np.asarray(o_c).tolist()} (angles_tol {tol_!r}, bandwidth {bw_!r})",
+                        dict(tags, kind="reference"))
+                rec.label("directional_vs_enumeration")
+        # unstructured_h: defining enumeration is C08's oracle (oracles/variogram.py)
 
 
 def _cmp(name, got, val, mag, eps, rec, tags):
